@@ -139,14 +139,22 @@ func suiteV04(c *vctx) {
 				}
 			}
 			refOk, _, _, _, _ := a.ref.Authenticate(u, p)
+			// the abstract store of the frontend model compares password BYTES; passwords the schema's own
+			// algorithm does not tell apart (PBKDF2-HMAC: trailing NULs, C01) are accepted by the real
+			// store under other bytes: such pairs are judged by the laws only, not sent to the model
+			modelled := !(refOk && p != pws[u])
 			id := fmt.Sprintf("%s %s", vxs(u[:min(len(u), 300)]), vxs(p[:min(len(p), 300)]))
 			// store interface of the agent (what every frontend calls)
 			ok, _, _, err := a.iface.Authenticate(u, p)
-			c.emit(fmt.Sprintf("front.store %s %s %s", utok, vxs(u), vxs(p)), vtf(ok && err == nil))
+			if modelled {
+				c.emit(fmt.Sprintf("front.store %s %s %s", utok, vxs(u), vxs(p)), vtf(ok && err == nil))
+			}
 			c.emit("law.C04.agent_interface_equals_store "+id, vtf((ok && err == nil) == refOk))
 			// saslauthd callback in-process: any bytes
 			sok, _, serr := callback(u, p, "svc", "realm", sock, a.iface)
-			c.emit(fmt.Sprintf("front.sasl %s %s %s", utok, vxs(u), vxs(p)), vtf(sok && serr == nil))
+			if modelled {
+				c.emit(fmt.Sprintf("front.sasl %s %s %s", utok, vxs(u), vxs(p)), vtf(sok && serr == nil))
+			}
 			c.emit("law.C04.sasl_equals_store "+id, vtf((sok && serr == nil) == refOk))
 			// saslauthd socket end to end, within the transport's limits
 			if len(u) >= 1 && len(u) <= 256 && len(p) >= 1 && len(p) <= 256 {
@@ -163,7 +171,9 @@ func suiteV04(c *vctx) {
 				rec := httptest.NewRecorder()
 				a.mux.ServeHTTP(rec, req)
 				got := rec.Code == 200
-				c.emit(fmt.Sprintf("front.basic %s %s", utok, vxs(u+":"+p)), vtf(got))
+				if modelled {
+					c.emit(fmt.Sprintf("front.basic %s %s", utok, vxs(u+":"+p)), vtf(got))
+				}
 				if !strings.Contains(u, ":") {
 					c.emit("law.C04.basic_auth_equals_store "+id, vtf(got == refOk))
 				}
@@ -197,12 +207,14 @@ func suiteV04(c *vctx) {
 			{
 				code, lerr := ldapHandler{store: a.iface}.Bind(u, p, nil)
 				got := code == ldap.LDAPResultSuccess && lerr == nil
-				c.emit(fmt.Sprintf("front.ldap %s %s %s", utok, vxs(u), vxs(p)), vtf(got))
 				cutu := u
 				if i := strings.IndexByte(u, '@'); i >= 0 {
 					cutu = u[:i]
 				}
 				lref, _, _, _, _ := a.ref.Authenticate(cutu, p)
+				if !(lref && p != pws[cutu]) {
+					c.emit(fmt.Sprintf("front.ldap %s %s %s", utok, vxs(u), vxs(p)), vtf(got))
+				}
 				c.emit("law.C04.ldap_equals_store_for_name_up_to_at "+id, vtf(got == lref))
 				// the same bind over the wire (the BER encoding carries any bytes; an empty password would be
 				// an unauthenticated bind, which the client library refuses to send)
